@@ -37,8 +37,11 @@ static void h_run_case(hcase_t* c) {
   memset(nodes, 0, sizeof nodes);
   shared_cell = 0;
   t1_setup(n);
-  /* mutex by hand, mirroring fiber_mutex_init, with the stub node from our array */
-  mtx.counter = 1;
+  /* the REAL fiber_mutex_init sets every field (also any a change adds); only the queue's stub node is replaced by
+   * one from our array so that node addresses print as small ids */
+  memset(&mtx, 0x5a, sizeof mtx);
+  fiber_mutex_init(&mtx);
+  free(mtx.waiters.head);
   mtx.waiters.head = &nodes[0]; mtx.waiters.tail = &nodes[0];
   for (int t = 0; t < n; t++) {
     fiber_t* f = t1_fiber_of(t);
